@@ -1,8 +1,10 @@
 package props
 
 import (
+	"bytes"
 	"encoding/json"
 	"fmt"
+	"io"
 	"os"
 	"os/exec"
 	"path/filepath"
@@ -80,17 +82,77 @@ type scriptOutcome struct {
 }
 
 type c07Spec struct {
-	seed  uint64
-	plain bool // no lists / notes
-	n     int
+	Seed  uint64
+	Plain bool // no lists / notes
+	N     int
+	Cold  bool   // biased to code with first-use initialisation (Markdown, formulas, templates, styles)
+	Tpl   uint64 // != 0: the document starts as a render of the template document built from this seed
+	shared *c07Template
+}
+
+// c07Template is a template document loaded into an engine; a group of documents may be rendered from one of them.
+type c07Template struct {
+	mu  sync.Mutex // renders are serialised: the statement is about the documents, the engine is the business of C17
+	eng *document.TemplateEngine
+}
+
+func c07BuildTemplate(seed uint64, workDir string) *c07Template {
+	r := rng.New(seed)
+	dir := filepath.Join(workDir, fmt.Sprintf("tpl%x", seed))
+	os.MkdirAll(dir, 0755)
+	defer os.RemoveAll(dir)
+	base := NewScript(r, false, dir)
+	base.NoReopen = true
+	base.Weights = map[string]int{"AddImageFromData": 20, "Header/Footer": 12, "AddParagraph": 6, "AddTable": 3, "Table.content": 6, "Reopen": 0, "RenderAsTemplate": 0, "AddImageFromFile": 2, "Notes": 3, "Lists": 3, "Markdown": 0}
+	base.Run(r.Range(0, 14), nil)
+	if base.Panic != nil {
+		return nil
+	}
+	base.Doc.AddParagraph("{{x}} {{name}}")
+	doc := base.Doc
+	if r.Bool() { // a template read from a file: slices sized by the reader
+		if b, err := doc.ToBytes(); err == nil {
+			if d2, err := document.OpenFromMemory(io.NopCloser(bytes.NewReader(b))); err == nil && d2 != nil && d2.Body != nil {
+				doc = d2
+			}
+		}
+	}
+	eng := document.NewTemplateEngine()
+	if _, err := eng.LoadTemplateFromDocument("base", doc); err != nil {
+		return nil
+	}
+	return &c07Template{eng: eng}
 }
 
 func (sp c07Spec) start(workDir string, tag string) *Script {
 	dir := filepath.Join(workDir, tag)
 	os.MkdirAll(dir, 0755)
-	s := NewScript(rng.New(sp.seed), false, dir)
-	s.NoLists = sp.plain
+	s := NewScript(rng.New(sp.Seed), false, dir)
+	s.NoLists = sp.Plain
 	s.Weights = map[string]int{"Lists": 10, "Notes": 10, "TOC": 3, "Reopen": 2, "RenderAsTemplate": 2}
+	if sp.Cold {
+		s.Weights = map[string]int{"Markdown": 14, "AddMathFormula": 8, "RenderAsTemplate": 8, "Styles": 6, "TOC": 4, "Lists": 5, "Notes": 5, "Reopen": 3, "Header/Footer": 5}
+	}
+	if sp.Tpl != 0 {
+		t := sp.shared
+		if t == nil {
+			t = c07BuildTemplate(sp.Tpl, workDir)
+		}
+		if t != nil {
+			data := document.NewTemplateData()
+			data.SetVariable("x", fmt.Sprintf("doc-%x", sp.Seed))
+			data.SetVariable("name", "n")
+			t.mu.Lock()
+			var d *document.Document
+			var err error
+			cg := core.Catch(func() { d, err = t.eng.RenderTemplateToDocument("base", data) })
+			t.mu.Unlock()
+			if cg == nil && err == nil && d != nil && d.Body != nil {
+				s.adopt(d)
+				s.Weights = map[string]int{"AddImageFromData": 24, "AddImageFromFile": 4, "Header/Footer": 14, "Notes": 8, "Lists": 8, "AddParagraph": 4, "Table.content": 6, "AddTable": 3, "Properties": 3, "Reopen": 1, "RenderAsTemplate": 0, "Markdown": 0}
+			}
+		}
+	}
 	return s
 }
 
@@ -117,43 +179,103 @@ func (sp c07Spec) finish(s *Script) *scriptOutcome {
 
 func (sp c07Spec) alone(workDir, tag string) *scriptOutcome {
 	s := sp.start(workDir, tag)
-	s.Run(sp.n, nil)
+	s.Run(sp.N, nil)
 	return sp.finish(s)
 }
 
 // c07FreshProcess runs one script in a newly started process and returns its outcome.
 func c07FreshProcess(sp c07Spec, workDir string, cs int) *scriptOutcome {
+	outs := c07Child("alone", []c07Spec{sp}, filepath.Join(workDir, fmt.Sprintf("c%d-fresh", cs)))
+	if len(outs) != 1 {
+		return nil
+	}
+	return outs[0]
+}
+
+type c07Wire struct {
+	Parts    map[string]string
+	Access   string
+	Panicked bool
+	Ops      []string
+}
+
+// c07Child starts this binary again ("c07child <mode> <workdir>", specs on stdin) and returns the outcomes it prints.
+// mode "alone": the scripts one after the other; mode "cold": all scripts at once, each in its own goroutine, as the very
+// first thing the new process does with the library (first-use initialisation happens under concurrency). The child
+// inherits GORACE, so a race binary reports into the same log directory.
+func c07Child(mode string, specs []c07Spec, workDir string) []*scriptOutcome {
 	self, err := os.Executable()
 	if err != nil {
 		return nil
 	}
-	cmd := exec.Command(self, "c07alone", fmt.Sprint(sp.seed), fmt.Sprint(sp.plain), fmt.Sprint(sp.n), filepath.Join(workDir, fmt.Sprintf("c%d-fresh", cs)))
+	in, _ := json.Marshal(specs)
+	cmd := exec.Command(self, "c07child", mode, workDir)
+	cmd.Stdin = bytes.NewReader(in)
 	out, err := cmd.Output()
 	if err != nil {
 		return nil
 	}
-	var o struct {
-		Parts    map[string]string
-		Access   string
-		Panicked bool
-	}
-	if json.Unmarshal(out, &o) != nil {
+	var ws []c07Wire
+	if json.Unmarshal(out, &ws) != nil || len(ws) != len(specs) {
 		return nil
 	}
-	return &scriptOutcome{parts: o.Parts, access: o.Access, panicked: o.Panicked}
+	res := make([]*scriptOutcome, len(ws))
+	for i, w := range ws {
+		res[i] = &scriptOutcome{parts: w.Parts, access: w.Access, panicked: w.Panicked, ops: w.Ops}
+	}
+	return res
 }
 
-// C07Alone is the entry point of the fresh-process baseline (vwork c07alone <seed> <plain> <n> <workdir>).
-func C07Alone(args []string) {
-	var sp c07Spec
-	fmt.Sscan(args[0], &sp.seed)
-	sp.plain = args[1] == "true"
-	fmt.Sscan(args[2], &sp.n)
-	os.MkdirAll(args[3], 0755)
-	o := sp.alone(args[3], "x")
-	os.RemoveAll(args[3])
-	b, _ := json.Marshal(map[string]interface{}{"Parts": o.parts, "Access": o.access, "Panicked": o.panicked})
+// C07Child is the entry point of the child process (vwork c07child <mode> <workdir>, specs as JSON on stdin).
+func C07Child(args []string) {
+	var specs []c07Spec
+	if err := json.NewDecoder(os.Stdin).Decode(&specs); err != nil || len(args) < 2 {
+		os.Exit(2)
+	}
+	mode, dir := args[0], args[1]
+	os.MkdirAll(dir, 0755)
+	defer os.RemoveAll(dir)
+	outs := make([]*scriptOutcome, len(specs))
+	if mode == "cold" {
+		outs = c07Concurrent(specs, dir, "cold")
+	} else {
+		for i, sp := range specs {
+			outs[i] = sp.alone(dir, fmt.Sprintf("x%d", i))
+		}
+	}
+	ws := make([]c07Wire, len(outs))
+	for i, o := range outs {
+		ws[i] = c07Wire{o.parts, o.access, o.panicked, o.ops}
+	}
+	b, _ := json.Marshal(ws)
 	os.Stdout.Write(b)
+	os.RemoveAll(dir)
+}
+
+// c07Concurrent runs every script in its own goroutine, released together, with yields at the library's hook points.
+func c07Concurrent(specs []c07Spec, workDir, tag string) []*scriptOutcome {
+	document.VerifSetCallback(func(string) { runtime.Gosched() })
+	defer document.VerifSetCallback(nil)
+	got := make([]*scriptOutcome, len(specs))
+	var wg sync.WaitGroup
+	start := make(chan struct{})
+	for i := range specs {
+		wg.Add(1)
+		go func(i int) {
+			defer wg.Done()
+			sp := specs[i]
+			<-start
+			s := sp.start(workDir, fmt.Sprintf("%s-g%d", tag, i))
+			for k := 0; k < sp.N; k++ {
+				s.Run(1, nil)
+				runtime.Gosched()
+			}
+			got[i] = sp.finish(s)
+		}(i)
+	}
+	close(start)
+	wg.Wait()
+	return got
 }
 
 func c07Compare(res *core.Result, base, got *scriptOutcome, mode string, plain bool, note string) {
@@ -187,9 +309,22 @@ func c07Case(c *core.Ctx) *core.Result {
 	if c.Race {
 		nScripts = r.Range(2, 8)
 	}
+	// every fifth case: the documents of the group are renders of one template document, then extended by their own scripts
+	// every seventh case (race binary: every fourth): the group runs concurrently as the first thing a new process does
+	siblings := c.Case%5 == 3
+	cold := !siblings && ((!c.Race && c.Case%7 == 2) || (c.Race && c.Case%4 == 1))
+	tplSeed := r.U64() | 1
 	specs := make([]c07Spec, nScripts)
 	for i := range specs {
-		specs[i] = c07Spec{seed: r.U64(), plain: r.Chance(1, 3), n: r.Range(3, maxOps)}
+		specs[i] = c07Spec{Seed: r.U64(), Plain: r.Chance(1, 3), N: r.Range(3, maxOps)}
+		if siblings {
+			specs[i].Tpl = tplSeed
+			specs[i].N = r.Range(2, 10)
+		}
+		if cold {
+			specs[i].Cold = true
+			specs[i].Plain = false
+		}
 	}
 	// baselines: each script alone (twice: a script whose own result is not reproducible cannot be judged)
 	base := make([]*scriptOutcome, nScripts)
@@ -203,7 +338,7 @@ func c07Case(c *core.Ctx) *core.Result {
 		// the same script in a process that has never seen another document: state that the library keeps per process
 		// (caches, pools, counters) and that has long settled in this worker is invisible to the comparisons below
 		if fresh := c07FreshProcess(specs[0], c.WorkDir, c.Case); fresh != nil {
-			c07Compare(res, fresh, base[0], "fresh-process-vs-used-process", specs[0].plain, note(0))
+			c07Compare(res, fresh, base[0], "fresh-process-vs-used-process", specs[0].Plain, note(0))
 			res.Count("fresh_process_baselines", 1)
 		} else {
 			res.Count("fresh_process_baseline_failed", 1)
@@ -212,17 +347,32 @@ func c07Case(c *core.Ctx) *core.Result {
 	for i, sp := range specs {
 		// the same calls once more: the result may depend on nothing but the calls (the first runs are now "other documents before")
 		again := sp.alone(c.WorkDir, fmt.Sprintf("c%d-b%d", c.Case, i))
-		c07Compare(res, base[i], again, "repeated", sp.plain, note(i))
+		c07Compare(res, base[i], again, "repeated", sp.Plain, note(i))
 	}
 	mode := []string{"sequential", "interleaved", "concurrent"}[c.Case%3]
 	if c.Race {
 		mode = "concurrent"
 	}
+	if siblings {
+		// in the runs beside each other the documents really come from ONE loaded template
+		if shared := c07BuildTemplate(tplSeed, c.WorkDir); shared != nil {
+			for i := range specs {
+				specs[i].shared = shared
+			}
+			res.Count("template_sibling_groups", 1)
+		}
+		if mode == "sequential" {
+			mode = "interleaved"
+		}
+	}
+	if cold {
+		mode = "cold-concurrent"
+	}
 	switch mode {
 	case "sequential": // T1 ; S ; T2 — S must not care what happened before
 		for i, sp := range specs {
 			got := sp.alone(c.WorkDir, fmt.Sprintf("c%d-s%d", c.Case, i))
-			c07Compare(res, base[i], got, mode, sp.plain, note(i))
+			c07Compare(res, base[i], got, mode, sp.Plain, note(i))
 		}
 	case "interleaved": // calls of all scripts alternate in one goroutine
 		live := make([]*Script, nScripts)
@@ -231,41 +381,33 @@ func c07Case(c *core.Ctx) *core.Result {
 		}
 		for step := 0; step < maxOps; step++ {
 			for i, sp := range specs {
-				if step < sp.n {
+				if step < sp.N {
 					live[i].Run(1, nil)
 				}
 			}
 		}
+		// saved in turn after all edits, first document first
 		for i, sp := range specs {
-			c07Compare(res, base[i], sp.finish(live[i]), mode, sp.plain, note(i))
+			c07Compare(res, base[i], sp.finish(live[i]), mode+c07Sib(siblings), sp.Plain, note(i))
 		}
 		res.Count("interleaved_groups", 1)
 	case "concurrent": // every script in its own goroutine, released together
-		document.VerifSetCallback(func(string) { runtime.Gosched() })
-		got := make([]*scriptOutcome, nScripts)
-		var wg sync.WaitGroup
-		start := make(chan struct{})
-		for i := range specs {
-			wg.Add(1)
-			go func(i int) {
-				defer wg.Done()
-				sp := specs[i]
-				s := sp.start(c.WorkDir, fmt.Sprintf("c%d-g%d", c.Case, i))
-				<-start
-				for k := 0; k < sp.n; k++ {
-					s.Run(1, nil)
-					runtime.Gosched()
-				}
-				got[i] = sp.finish(s)
-			}(i)
-		}
-		close(start)
-		wg.Wait()
-		document.VerifSetCallback(nil)
+		got := c07Concurrent(specs, c.WorkDir, fmt.Sprintf("c%d", c.Case))
 		for i, sp := range specs {
-			c07Compare(res, base[i], got[i], mode, sp.plain, note(i))
+			c07Compare(res, base[i], got[i], mode+c07Sib(siblings), sp.Plain, note(i))
 		}
 		res.Count("concurrent_groups", 1)
+		res.Count("goroutines", int64(nScripts))
+	case "cold-concurrent":
+		got := c07Child("cold", specs, filepath.Join(c.WorkDir, fmt.Sprintf("c%d-cold", c.Case)))
+		if got == nil {
+			res.Count("cold_start_child_failed", 1)
+			break
+		}
+		for i, sp := range specs {
+			c07Compare(res, base[i], got[i], mode, sp.Plain, note(i))
+		}
+		res.Count("cold_start_groups", 1)
 		res.Count("goroutines", int64(nScripts))
 	}
 	res.Nontrivial = res.Stats["outcomes_compared"] >= 2
@@ -278,11 +420,18 @@ func c07Case(c *core.Ctx) *core.Result {
 	return res
 }
 
+func c07Sib(b bool) string {
+	if b {
+		return "+template-siblings"
+	}
+	return ""
+}
+
 func init() {
 	core.Register(&core.Check{
 		ID:    "C07",
 		Level: "exploration",
-		Rule: "2-6 (race binary: 2-8) deterministic API scripts on distinct documents, one third of them 'plain' (no lists/notes); each script is first run alone, then repeated (the other scripts' first runs are then its process history), every fourth case also in a newly started process (state the library keeps per process and that has settled in a long-running worker is only visible against a fresh process), then again (a) after the other scripts in the same process, (b) with the calls of all scripts alternating in one goroutine, (c) each script in its own goroutine released by a barrier with yields at the library's hook points. " +
+		Rule: "2-6 (race binary: 2-8) deterministic API scripts on distinct documents, one third of them 'plain' (no lists/notes), every fifth group made of renders of ONE loaded template document that are then extended by their own scripts; each script is first run alone (own template), then repeated (the other scripts' first runs are then its process history), every fourth case also in a newly started process (state the library keeps per process and that has settled in a long-running worker is only visible against a fresh process), then again (a) after the other scripts in the same process, (b) with the calls of all scripts alternating in one goroutine, (c) each script in its own goroutine released by a barrier with yields at the library's hook points, (d) every seventh case (race binary: every fourth) as (c) but as the very first use of the library in a newly started process, with scripts biased to code that initialises on first use (Markdown with formulas, templates, styles). " +
 			"Every part of the resulting package (canonical XML, media by content, docProps time stamps masked) and the accessor results (note counts, heading counts, paragraph/table counts, page settings) must equal the alone baseline. The same concurrent workload runs in the -race binary; every DATA RACE report whose accesses lie in the library is a finding keyed by the pair of innermost library functions. " +
 			"Non-trivial: >=2 outcomes compared; distinct = mode + the scripts' call sequences.",
 		Cases:          func(t string) int { return tierN(t, 600, 12000) },
